@@ -137,13 +137,14 @@ fn step() -> impl Strategy<Value = Step> {
 pub fn strategy() -> impl Strategy<Value = Case> {
     (
         (any::<u64>(), 2u8..=3, 0u8..4, prop::bool::weighted(0.7), any::<bool>()),
-        (prop_oneof![3 => Just(0u32), 2 => 2u32..=4], prop::bool::weighted(0.3)),
+        (prop_oneof![11 => Just(0u32), 5 => Just(2u32), 3 => Just(3u32), 1 => Just(4u32)], prop::bool::weighted(0.3)),
         (prop_oneof![3 => Just(0u32), 2 => Just(1u32), 2 => Just(3u32)], prop_oneof![3 => Just(0u32), 1 => Just(1u32), 1 => Just(2u32)], prop::bool::weighted(0.45), prop::bool::weighted(0.35)),
         2u8..=6,
-        (prop::collection::vec(step(), 2..=6), prop::bool::weighted(0.6), prop::collection::vec(step(), 1..=4)),
+        (prop::collection::vec(dg(), 2..=6), prop::collection::vec(step(), 1..=5), prop::bool::weighted(0.6), prop::collection::vec(step(), 1..=4)),
     )
-        .prop_map(|((seed, backends, lb, with_port, front_long), (max_flows, big_rx), (requests, responses, ppv2, every), clients, (pre, expire, post))| {
-            let mut steps = pre;
+        .prop_map(|((seed, backends, lb, with_port, front_long), (max_flows, big_rx), (requests, responses, ppv2, every), clients, (first, pre, expire, post))| {
+            let mut steps = vec![Step::Burst(first)];
+            steps.extend(pre);
             if expire {
                 steps.push(Step::Expire);
                 steps.extend(post);
@@ -761,9 +762,6 @@ impl Life {
     fn first_order(&self) -> u64 {
         self.dgs.iter().map(|d| d.0).min().unwrap_or(0)
     }
-    fn last_order(&self) -> u64 {
-        self.dgs.iter().map(|d| d.0).max().unwrap_or(0)
-    }
 }
 
 fn judge(case: &Case, o: &Observed) -> CheckResult {
@@ -776,7 +774,8 @@ fn judge(case: &Case, o: &Observed) -> CheckResult {
     // ---- (2) every datagram a backend received is one a client sent: intact, at most once
     let mut arrived: BTreeMap<(u8, u8), usize> = BTreeMap::new();
     // upstream address -> arrivals in order: (order, backend, client, seq, prefixed)
-    let mut by_from: BTreeMap<SocketAddr, Vec<(u64, usize, u8, u8, bool)>> = BTreeMap::new();
+    // (upstream address, backend): the kernel may hand a closed socket's port to a later one
+    let mut by_from: BTreeMap<(SocketAddr, usize), Vec<(u64, u8, u8, bool)>> = BTreeMap::new();
     let mut excluded_dst = 0u64;
     let mut arrivals: Vec<&Arrival> = o.arrivals.iter().collect();
     arrivals.sort_by_key(|a| a.order);
@@ -839,7 +838,7 @@ fn judge(case: &Case, o: &Observed) -> CheckResult {
                 }
             }
         }
-        by_from.entry(a.from).or_default().push((a.order, a.backend, c, s, pp.is_some()));
+        by_from.entry((a.from, a.backend)).or_default().push((a.order, c, s, pp.is_some()));
     }
     // known shapes left out by construction, one count per scenario each: the PROXY v2 destination is
     // compared with the backend's address too; the frontend is not removed while IP+port flows live
@@ -848,12 +847,13 @@ fn judge(case: &Case, o: &Observed) -> CheckResult {
     // ---- (1) isolation: one upstream socket carries one client's flow
     let mut lives: Vec<Life> = vec![];
     let mut port_reused = false;
-    for (from, v) in &by_from {
-        let clients: BTreeSet<u8> = v.iter().map(|x| x.2).collect();
+    for ((from, backend), v) in &by_from {
+        let clients: BTreeSet<u8> = v.iter().map(|x| x.1).collect();
+        // arrival order at one backend is taken by one thread: spans of two clients on one socket compare safely
         let mut spans: Vec<(u64, u64, u8)> = clients
             .iter()
             .map(|c| {
-                let orders: Vec<u64> = v.iter().filter(|x| x.2 == *c).map(|x| x.0).collect();
+                let orders: Vec<u64> = v.iter().filter(|x| x.1 == *c).map(|x| x.0).collect();
                 (*orders.iter().min().unwrap(), *orders.iter().max().unwrap(), *c)
             })
             .collect();
@@ -862,7 +862,7 @@ fn judge(case: &Case, o: &Observed) -> CheckResult {
             if w[1].0 < w[0].1 {
                 fail!(
                     "C19/upstream-socket-shared",
-                    "the proxy's upstream socket {from} carried datagrams of client {} ({}) and, in between, of client {} ({}): flows are not isolated, the backend cannot tell them apart and its replies go to one of them",
+                    "the proxy's upstream socket {from} (to backend {backend}) carried datagrams of client {} ({}) and, in between, of client {} ({}): flows are not isolated, the backend cannot tell them apart and its replies go to one of them",
                     w[0].2,
                     o.client_addrs[usize::from(w[0].2)],
                     w[1].2,
@@ -871,21 +871,30 @@ fn judge(case: &Case, o: &Observed) -> CheckResult {
             }
             port_reused = true;
         }
+        port_reused |= by_from.keys().any(|(f, b)| f == from && b != backend);
         for c in &clients {
-            let dgs: Vec<(u64, u8, bool)> = v.iter().filter(|x| x.2 == *c).map(|x| (x.0, x.3, x.4)).collect();
-            let backends: BTreeSet<usize> = v.iter().filter(|x| x.2 == *c).map(|x| x.1).collect();
-            if backends.len() > 1 {
-                fail!("C19/flow-split-across-backends", "datagrams of client {c} sent from the upstream socket {from} reached backends {backends:?}");
-            }
+            let dgs: Vec<(u64, u8, bool)> = v.iter().filter(|x| x.1 == *c).map(|x| (x.0, x.2, x.3)).collect();
             if let Some(w) = dgs.windows(2).find(|w| w[1].1 <= w[0].1) {
                 fail!("C19/datagrams-reordered", "client {c}, upstream socket {from}: datagram {} arrived after datagram {}", w[1].1, w[0].1);
             }
-            lives.push(Life { from: *from, backend: *backends.iter().next().unwrap(), client: *c, dgs });
+            lives.push(Life { from: *from, backend: *backend, client: *c, dgs });
         }
     }
 
+    if std::env::var("VP_C19_TRACE").is_ok() {
+        // debugging by hand (replays): what was written, what the backends saw
+        eprintln!("-- scenario: requests {} responses {} max_flows {} ppv2 {}/{} timeouts {}/{} s", case.requests, case.responses, case.max_flows, case.ppv2, case.every, case.front_s, case.back_s);
+        for s in &o.sent {
+            eprintln!("   sent client {} #{} {} bytes {:?} phase {} burst {} t {} ms ok {} arrived {}", s.client, s.seq, s.len, s.kind, s.phase, s.burst, s.t_ms, s.ok, arrived.contains_key(&(s.client, s.seq)));
+        }
+        for l in &lives {
+            eprintln!("   life client {} via {} to backend {}: (order, datagram, prefixed) {:?}", l.client, l.from, l.backend, l.dgs);
+        }
+        eprintln!("   replies sent {} received {:?}", o.replies.len(), o.received.iter().map(|r| r.len()).collect::<Vec<_>>());
+    }
+
     // not arrived although written, non-empty and within the receive limit (sozu may have counted them)
-    let unaccounted = |c: u8, lo: u8, hi: u8| -> usize { o.sent.iter().filter(|s| s.client == c && s.ok && s.len > 0 && s.kind != Kind::MustDrop && s.seq > lo && s.seq < hi && !arrived.contains_key(&(c, s.seq))).count() };
+    let unaccounted = |c: u8, lo: i32, hi: u8| -> usize { o.sent.iter().filter(|s| s.client == c && s.ok && s.len > 0 && s.kind != Kind::MustDrop && i32::from(s.seq) > lo && s.seq < hi && !arrived.contains_key(&(c, s.seq))).count() };
 
     // ---- (1) stickiness, (4) request cap, (5) idle teardown: per client, life after life
     let mut stall_excused = false;
@@ -940,7 +949,10 @@ fn judge(case: &Case, o: &Observed) -> CheckResult {
                 continue;
             }
             // why may the first life have ended?
-            let forwarded = l1.dgs.len() + unaccounted(c, l1.min_seq(), l2.min_seq());
+            // datagrams that never arrived may still have been counted by sozu (lost behind it, or too
+            // large to be sent once prefixed): those between the previous life and the next one count
+            let prev_end = ls.iter().filter(|p| p.min_seq() < l1.min_seq()).map(|p| i32::from(p.max_seq())).max().unwrap_or(-1);
+            let forwarded = l1.dgs.len() + unaccounted(c, prev_end, l2.min_seq());
             let by_requests = case.requests > 0 && forwarded >= case.requests as usize;
             let replies_before = o.replies.iter().filter(|r| r.to == l1.from && r.backend == l1.backend && r.tag != b'Z' && r.order < l2.first_order()).count();
             let by_responses = case.responses > 0 && replies_before >= case.responses as usize;
@@ -990,11 +1002,15 @@ fn judge(case: &Case, o: &Observed) -> CheckResult {
         let phase_lives: Vec<&Life> = lives.iter().filter(|l| by_key[&(l.client, l.dgs[0].1)].phase == p).collect();
         let speakers: BTreeSet<u8> = in_phase.iter().filter(|s| s.kind == Kind::Forward).map(|s| s.client).collect();
         if small_cap {
-            // certainly alive at once: lives whose first..last arrival overlap
-            let mut events: Vec<(u64, i32)> = vec![];
+            // Certainly alive at once: a flow exists from the moment sozu handles its first datagram
+            // until it handles its last. One thread writes every datagram to the one listener socket,
+            // so sozu handles them in the order written: positions in that order, not arrival times
+            // at the backends (separate threads), delimit a life.
+            let pos = |c: u8, seq: u8| o.sent.iter().position(|s| s.client == c && s.seq == seq).unwrap_or(0);
+            let mut events: Vec<(usize, i32)> = vec![];
             for l in &phase_lives {
-                events.push((l.first_order(), 1));
-                events.push((l.last_order() + 1, -1));
+                events.push((pos(l.client, l.min_seq()), 1));
+                events.push((pos(l.client, l.max_seq()) + 1, -1));
             }
             events.sort();
             let (mut cur, mut peak) = (0i32, 0i32);
@@ -1003,7 +1019,12 @@ fn judge(case: &Case, o: &Observed) -> CheckResult {
                 peak = peak.max(cur);
             }
             if peak > case.max_flows as i32 {
-                fail!("C19/max-flows-exceeded", "max_flows = {}: {peak} upstream sockets carried datagrams in overlapping periods", case.max_flows);
+                fail!(
+                    "C19/max-flows-exceeded",
+                    "max_flows = {}: {peak} upstream sockets were in use at once (each between the first and the last datagram it carried, in the order the datagrams were written): {:?}",
+                    case.max_flows,
+                    phase_lives.iter().map(|l| (l.client, l.from, l.min_seq(), l.max_seq())).collect::<Vec<_>>()
+                );
             }
             if unlimited && short {
                 strong_cap_check = true;
@@ -1019,10 +1040,12 @@ fn judge(case: &Case, o: &Observed) -> CheckResult {
                         phase_lives.iter().map(|l| (l.client, l.from)).collect::<Vec<_>>()
                     );
                 }
-                if phase_lives.len() < speakers.len().min(case.max_flows as usize) {
+                // a datagram too large to leave once prefixed still opens a flow no backend ever sees
+                let invisible = in_phase.iter().any(|s| s.kind == Kind::MayDrop && s.len > 0);
+                if !invisible && phase_lives.len() < speakers.len().min(case.max_flows as usize) {
                     fail!("C19/flow-refused-under-cap", "max_flows = {}: {} clients sent datagrams, only {} flows were opened", case.max_flows, speakers.len(), phase_lives.len());
                 }
-                shed_seen |= speakers.len() > phase_lives.len();
+                shed_seen |= !invisible && speakers.len() > phase_lives.len();
                 // existing flows continue: everything an admitted client sent after its first forwarded datagram
                 for l in &phase_lives {
                     for s in in_phase.iter().filter(|s| s.client == l.client && s.kind == Kind::Forward && s.seq >= l.min_seq()) {
@@ -1045,11 +1068,13 @@ fn judge(case: &Case, o: &Observed) -> CheckResult {
 
     // ---- (3) replies: only to the client that owns the flow, intact, at most once, in order, within the cap
     let mut seen_reply: BTreeSet<(u8, u8, u8)> = BTreeSet::new();
-    let mut per_life_replies: BTreeMap<SocketAddr, usize> = BTreeMap::new();
+    // a reply belongs to the life that carried the datagram it answers
+    let life_of: BTreeMap<(u8, u8), usize> = lives.iter().enumerate().flat_map(|(i, l)| l.dgs.iter().map(move |d| ((l.client, d.1), i))).collect();
+    let mut per_life_replies: BTreeMap<usize, usize> = BTreeMap::new();
     let mut got_replies = 0usize;
     for (ci, recs) in o.received.iter().enumerate() {
         let ci8 = ci as u8;
-        let mut last_order_per_life: BTreeMap<SocketAddr, u64> = BTreeMap::new();
+        let mut last_order_per_life: BTreeMap<usize, u64> = BTreeMap::new();
         for r in recs {
             if r.raw.len() < 5 || r.raw[0] != b'B' || r.raw[2] != b':' || !(b'0'..=b'2').contains(&r.raw[1]) {
                 fail!("C19/reply-altered", "client {ci} received {} bytes that are no reply of a mock backend: {:02x?}", r.raw.len(), &r.raw[..r.raw.len().min(24)]);
@@ -1090,18 +1115,21 @@ fn judge(case: &Case, o: &Observed) -> CheckResult {
             if !seen_reply.insert((c, s, tag)) {
                 fail!("C19/reply-duplicated", "client {ci} received reply '{}' of backend {k} to {} twice", tag as char, what(c, s));
             }
-            if let Some(prev) = last_order_per_life.insert(sr.to, sr.order) {
+            let Some(life) = life_of.get(&(c, s)).copied() else {
+                fail!("C19/reply-never-sent", "client {ci} received a reply to {} which no backend recorded", what(c, s));
+            };
+            if let Some(prev) = last_order_per_life.insert(life, sr.order) {
                 if prev > sr.order {
                     fail!("C19/replies-reordered", "client {ci}: replies sent by backend {k} to the upstream socket {} arrived in another order than they were sent", sr.to);
                 }
             }
-            *per_life_replies.entry(sr.to).or_insert(0) += 1;
+            *per_life_replies.entry(life).or_insert(0) += 1;
             got_replies += 1;
         }
     }
     if case.responses > 0 {
-        if let Some((to, n)) = per_life_replies.iter().find(|(_, n)| **n > case.responses as usize) {
-            fail!("C19/responses-cap-exceeded", "responses = {}: {n} replies sent to the upstream socket {to} were returned to the client", case.responses);
+        if let Some((life, n)) = per_life_replies.iter().find(|(_, n)| **n > case.responses as usize) {
+            fail!("C19/responses-cap-exceeded", "responses = {}: {n} replies sent to the upstream socket {} were returned to client {}", case.responses, lives[*life].from, lives[*life].client);
         }
     }
     if unlimited && !small_cap {
@@ -1188,7 +1216,7 @@ fn adjacency(case: &Case, sent: &[Sent]) -> (bool, bool) {
 }
 
 pub fn rule() -> &'static str {
-    "a live worker with one UDP listener (front/back idle timeouts 1 s / 2 s or 2 s / 1 s, max_rx_datagram_size 1500 or 65507, max_flows automatic or 2..4), one UDP cluster (round robin / HRW / Maglev / random; affinity by source IP or IP+port; requests cap 0/1/3, responses cap 0/1/2, PROXY v2 prefix off / first datagram / every datagram) and 2..3 mock UDP backends on real loopback sockets; 2..6 clients, each its own socket on its own 127.0.0.x address, send keyed datagrams (first byte = client and sequence number, then keyed bytes; 1..1400 bytes, some empty, at the receive limit, above it, near 64 KiB) in bursts written back-to-back by one thread, clients mixed, later bursts bringing clients that have not spoken yet (a new flow's first datagram next to a datagram of an established flow), pauses of 1..300 ms, and (60%) one silence of max(front, back) + 1.5 s after which every backend sends a datagram to each upstream address it has seen and the clients speak again. Each backend records (source address = the proxy's upstream socket, bytes) of every datagram and answers by plan: 0..2 immediate replies 'B<k>:<n>' + payload, optionally one more 30..400 ms later. Oracle, from what backends and clients saw: every datagram at a backend is byte-identical to one a client sent (own PROXY v2 reader: well-formed DGRAM/IPv4 header, source = the client's real address, destination = the listener; present exactly on the first datagram of an upstream socket, or on every one), at most once, in sending order per upstream socket, never one above the receive limit; one upstream socket carries datagrams of one client only and reaches one backend; a client moves to another upstream socket only when the requests cap was reached, the backend had sent `responses` replies before, or the client had been silent (measured) for the shorter idle timeout - 250 ms; never more datagrams per upstream socket than the requests cap, never more replies returned per upstream socket than the responses cap; max_flows: never more upstream sockets in overlapping use than the cap, and with no other cap and a phase shorter than the idle timeouts exactly min(cap, clients) sockets, the admitted clients keep being served; after the silence no datagram leaves through an old upstream socket and the backends' late datagrams reach no client; every datagram a client receives comes from the listener's address, is a reply the backend of its own flow sent to one of its own datagrams, intact, at most once, in the order sent; more than 20% of the datagrams (or, without caps, replies) missing is a failure, less is UDP; the worker is alive. A failure is re-run twice on a fresh worker and reported only if it reproduces. Non-trivial: datagrams of >= 2 clients forwarded and a burst that mixes clients."
+    "a live worker with one UDP listener (front/back idle timeouts 1 s / 2 s or 2 s / 1 s, max_rx_datagram_size 1500 or 65507, max_flows automatic or 2..4), one UDP cluster (round robin / HRW / Maglev / random; affinity by source IP or IP+port; requests cap 0/1/3, responses cap 0/1/2, PROXY v2 prefix off / first datagram / every datagram) and 2..3 mock UDP backends on real loopback sockets; 2..6 clients, each its own socket on its own 127.0.0.x address, send keyed datagrams (first byte = client and sequence number, then keyed bytes; 1..1400 bytes, some empty, at the receive limit, above it, near 64 KiB) in bursts written back-to-back by one thread, clients mixed, later bursts bringing clients that have not spoken yet (a new flow's first datagram next to a datagram of an established flow), pauses of 1..300 ms, and (60%) one silence of max(front, back) + 1.5 s after which every backend sends a datagram to each upstream address it has seen and the clients speak again. Each backend records (source address = the proxy's upstream socket, bytes) of every datagram and answers by plan: 0..2 immediate replies 'B<k>:<n>' + payload, optionally one more 30..400 ms later. Oracle, from what backends and clients saw: every datagram at a backend is byte-identical to one a client sent (own PROXY v2 reader: well-formed DGRAM/IPv4 header, source = the client's real address, destination = the listener; present exactly on the first datagram of an upstream socket, or on every one), at most once, in sending order per upstream socket, never one above the receive limit; one upstream socket carries datagrams of one client only ; a client moves to another upstream socket only when the requests cap was reached, the backend had sent `responses` replies before, or the client had been silent (measured) for the shorter idle timeout - 250 ms; never more datagrams per upstream socket than the requests cap, never more replies returned per upstream socket than the responses cap; max_flows: never more upstream sockets in use at once than the cap (each between the first and the last datagram it carried, in the order the single writer thread wrote the datagrams, which is the order sozu handles them), and with no other cap and a phase shorter than the idle timeouts exactly min(cap, clients) sockets, the admitted clients keep being served; after the silence no datagram leaves through an old upstream socket and the backends' late datagrams reach no client; every datagram a client receives comes from the listener's address, is a reply the backend of its own flow sent to one of its own datagrams, intact, at most once, in the order sent; more than 20% of the datagrams (or, without caps, replies) missing is a failure, less is UDP; the worker is alive. A failure is re-run twice on a fresh worker and reported only if it reproduces. Non-trivial: datagrams of >= 2 clients forwarded and a burst that mixes clients."
 }
 
 /// child-process entry: run this shard's scenarios
